@@ -98,6 +98,8 @@ OpWritesP(pol, s, o, r, round) ==
                       IN << <<Row(Key("change", s.setId), r.s.ann[c].m)>> >>
                          \o TripleP(pol, new, r.s.ann[c].a, Num(r.s, b))
                  ELSE <<>>)
+     ELSE IF o.op = "Refinalise"
+     THEN << <<Row("fin:" \o ToString(round) \o ":" \o ToString(s.setId), o.b)>>, <<Row("hrs", Hrs(round, s.setId))>> >>
      ELSE LET xs == CFSorted({x \in 1..Len(s.par) : CFAnc(s.par, s.fin, x) /\ CFAncEq(s.par, x, o.b)})
           IN BlockRows(s, xs)
              \o << [i \in 1..Len(xs) |-> Row(Key("hsh", Num(s, xs[i])), xs[i])] >>
@@ -111,6 +113,12 @@ OpWritesP(pol, s, o, r, round) ==
 OpWrites(s, o, r, round) == OpWritesP(Policy, s, o, r, round)
 OtherPolicy == IF Policy = "pinned" THEN "required" ELSE "pinned"
 
+(* Refinalise: GRANDPA finalises the head again in every round in which no new block became final (an idle chain);    *)
+(* SetFinalisedHash then writes only the round's row and the pointer; the abstract authority set does not move.        *)
+IsFin(o) == o.op = "Finalise" \/ o.op = "Refinalise"
+CApply(s, o) == IF o.op = "Refinalise" THEN [s |-> s, res |-> "ok", cls |-> ""] ELSE Apply(s, o)
+RefinaliseOps(s) == IF s.fin # 0 THEN {[op |-> "Refinalise", p |-> 0, a |-> NoAnn, b |-> s.fin]} ELSE {}
+
 (* ---- the machine -------------------------------------------------------- *)
 CInit == /\ st = InitState /\ hist = <<>> /\ done = FALSE
          /\ db = GenesisDb /\ wq = <<>> /\ cur = [i |-> 0, o |-> [op |-> "none", p |-> 0, a |-> NoAnn, b |-> 0], alt |-> <<>>]
@@ -120,20 +128,24 @@ CInit == /\ st = InitState /\ hist = <<>> /\ done = FALSE
 
 Begin(o) ==
   /\ ~crashed /\ ~done /\ wq = <<>>
-  /\ LET r == Apply(st, o)
-         round == IF o.op = "Finalise" THEN nfin + 1 ELSE nfin
+  /\ LET r == CApply(st, o)
+         round == IF IsFin(o) THEN nfin + 1 ELSE nfin
      IN /\ st' = r.s
         /\ wq' = OpWrites(st, o, r, round)
         /\ nfin' = round
   /\ cur' = [i |-> cur.i + 1, o |-> o,
-              alt |-> IF Record THEN LET r == Apply(st, o) IN OpWritesP(OtherPolicy, st, o, r, IF o.op = "Finalise" THEN nfin + 1 ELSE nfin)
+              alt |-> IF Record THEN LET r == CApply(st, o) IN OpWritesP(OtherPolicy, st, o, r, IF IsFin(o) THEN nfin + 1 ELSE nfin)
                       ELSE <<>>]
   /\ stable' = db["hrs"]
   /\ UNCHANGED <<hist, done, db, crashed, whist, dbalt>>
 
-OpOK(s, o) == IF o.op = "Import" THEN Live(s, o.p) /\ Len(s.par) < MaxBlocks ELSE o.b \in 1..Len(s.par) /\ FinaliseOK(s, o.b)
+OpOK(s, o) == IF o.op = "Import" THEN Live(s, o.p) /\ Len(s.par) < MaxBlocks
+              ELSE IF o.op = "Refinalise" THEN o \in RefinaliseOps(s)
+              ELSE o.b \in 1..Len(s.par) /\ FinaliseOK(s, o.b)
 BeginScripted == script # <<>> /\ OpOK(st, Head(script)) /\ Begin(Head(script)) /\ script' = Tail(script)
-BeginAny == Scripts = {} /\ cur.i < Depth /\ (\E o \in EnabledOps(st) : Begin(o)) /\ UNCHANGED script
+BeginAny == Scripts = {} /\ cur.i < Depth
+            /\ (\E o \in EnabledOps(st) \cup (IF cur.o.op = "Refinalise" THEN {} ELSE RefinaliseOps(st)) : Begin(o))
+            /\ UNCHANGED script
 
 Write ==
   /\ ~crashed /\ wq # <<>>
@@ -167,7 +179,9 @@ PickSafe == LET E == SafeOps(st)
                 w == RandomElement({x \in 1..100 : cur.i >= 0})
                 kd == IF w <= 55 THEN "N" ELSE IF w <= 80 THEN "S" ELSE "F"
                 I == {o \in E : o.op = "Import" /\ o.a.k = kd}
-            IN IF w <= 35 /\ F # {} THEN RandomElement(F) ELSE IF I # {} THEN RandomElement(I) ELSE RandomElement(E)
+                R == RefinaliseOps(st)
+            IN IF w <= 8 /\ R # {} THEN RandomElement(R)
+               ELSE IF w <= 35 /\ F # {} THEN RandomElement(F) ELSE IF I # {} THEN RandomElement(I) ELSE RandomElement(E)
 BeginRand == /\ wq = <<>> /\ cur.i < Depth /\ SafeOps(st) # {}
              /\ \E o \in {PickSafe} : Begin(o)
              /\ UNCHANGED script
